@@ -572,6 +572,11 @@ func (vc *FnVC) elabModItem(env *Env, item string) (out []modItem, err error) {
 		// every object of the named struct type (any ref): for objects reached through
 		// maps or pointer fields whose identity the contract cannot name
 		t := env.resolveTypeText(strings.TrimSpace(strings.TrimPrefix(item, "typeof ")))
+		if sl, isSl := t.Underlying().(*types.Slice); isSl && !isObjectType(sl.Elem()) {
+			// every backing array of that element type (buffers that are reallocated on the way)
+			c, _ := vc.elemComp(sl.Elem())
+			return []modItem{{text: item, kind: "anyelems", elem: sl.Elem(), comp: c}}, nil
+		}
 		st := structOf(t)
 		if st == nil {
 			return nil, fmt.Errorf("typeof wants a struct type")
@@ -729,7 +734,7 @@ func (vc *FnVC) checkWrite(comp, ref, idx, what string, pos token.Pos) {
 			continue
 		}
 		switch m.kind {
-		case "anyref":
+		case "anyref", "anyelems":
 			return
 		case "field", "elems":
 			alts = append(alts, fmt.Sprintf("(= %s %s)", ref, m.ref))
